@@ -72,7 +72,9 @@ def patterns_for(rng, n, long_=True):
     pps = [p for p in pps if p.startswith('r:')]
     # hand-picked shapes every run should see
     pps += ['r:s:t', 'r:g:t', 'r:g/s:t', 'r:l61/g:t', 'r:s/s:t', 'r:l2e/s:t', 'r:l2e.l2e/s:t', 'r:l2e.s:t', 'r:s.l2e.l74.l78.l74:t', 'r:g/l61:t',
-            'r:s/g/s:T', 'r:G:t', 'r:l61/G/s:t', 'r:q:t', 'r:s:T', 'r:g/l2e.l68:t', 'r:b0[c61,c62]/s:t']
+            'r:s/g/s:T', 'r:G:t', 'r:l61/G/s:t', 'r:q:t', 'r:s:T', 'r:g/l2e.l68:t', 'r:b0[c61,c62]/s:t',
+            # a written dot heading a group alternative, then a wildcard: `.` and `..` stay out
+            'r:xA(l2e.s):t', 'r:s/xA(l2e.q;l78):t', 'r:g/xA(l2e.s):t', 'r:xQ(l2e.s).s:t', 'r:xP(l2e.q;l61)/s:t', 'r:xA(l2e.s)/s:T']
     m = Model()
     outs = m.run(['pden 0 0 0 1 0 0 %s []' % p for p in pps])
     return [(p, dec(o.split(' ')[0])) for p, o in zip(pps, outs)]
@@ -88,6 +90,60 @@ def seg_lists(pp):
 
 def group_first(pp):
     return any(sg.startswith('x') for sg in pp.split(':')[1].split('/'))
+
+
+def group_then_wild(pp):
+    """a segment that starts with an extended group and has a wildcard (or another group) after it"""
+    return any(gtw_seq(t) for t in top_tokens(pp))
+
+
+def tok_can_be_empty(t):
+    if t == 's':
+        return True
+    if t.startswith('x'):
+        if t[1] in 'QSN':
+            return True
+        return any(all(tok_can_be_empty(u) for u in split_top(alt, '.') if u) for alt in split_top(t[3:-1], ';'))
+    return False
+
+
+def group_segment_can_be_empty(pp):
+    """a segment that starts with an extended group and consists of parts that can all match the empty string"""
+    return any(t and t[0].startswith('x') and all(tok_can_be_empty(u) for u in t) for t in top_tokens(pp))
+
+
+def gtw_seq(toks):
+    if not toks or not toks[0].startswith('x'):
+        return False
+    if any(u[0] in 'sqbx' for u in toks[1:]):
+        return True
+    # the same shape inside an alternative of the leading group
+    inner = toks[0][3:-1]
+    return any(gtw_seq(split_top(alt, '.')) for alt in split_top(inner, ';'))
+
+
+def top_tokens(pp):
+    """per segment, the top-level tokens (a group with its alternatives is one token)"""
+    out = []
+    for sg in split_top(pp.split(':', 1)[1].rsplit(':', 1)[0], '/'):
+        out.append([sg] if sg in ('g', 'G') else split_top(sg, '.'))
+    return out
+
+
+def split_top(s, sep):
+    parts, depth, cur = [], 0, ''
+    for ch in s:
+        if ch in '([':
+            depth += 1
+        elif ch in ')]':
+            depth -= 1
+        if ch == sep and depth == 0:
+            parts.append(cur)
+            cur = ''
+        else:
+            cur += ch
+    parts.append(cur)
+    return parts
 
 
 def star_then_wild(pp):
@@ -144,11 +200,11 @@ def run_spec_search(ctx, rng, ntrees, npats, on_case=None, cfgs=CFGS, tree_size=
                         # each side of the difference must be explained by a listed finding (two may meet in one pattern)
                         kid_x = None
                         if extra:
-                            if all(hid(x) for x in extra) and group_first(pp):
+                            if all(hid(x) for x in extra) and group_then_wild(pp):
                                 kid_x = 'C03-group-then-wild'
                             elif all(hid(x) for x in extra) and star_then_wild(pp):
                                 kid_x = 'C03-star-guard-inside-optional'
-                            elif group_first(pp):
+                            elif group_segment_can_be_empty(pp):
                                 kid_x = 'C02-group-segment-empty'
                             elif c['matchbase'] and c['follow'] and c['globstarlong'] and \
                                     all(sg in ('g', 'G') for sg in pp.split(':')[1].split('/')) and len(pp.split(':')[1].split('/')) > 1:
@@ -285,4 +341,47 @@ def frontends_equiv(ctx, rng):
                                                {'pattern': pat, 'flags': corr.flag_names(fl), 'how': how, 'tree': spec, 'paths': bad[:6]})
             finally:
                 os.close(fd)
+    return n
+
+
+def spelling_equiv(ctx, rng, ntrees=3, npats=30):
+    """A run of separators in the pattern - `//`, an escaped `\\/`, mixtures, also after `**` - counts as one, and a final
+    backslash that escapes nothing is ignored: the walk returns the same paths, and globmatch with REALPATH accepts the
+    same candidates, as for the pattern with every separator written once.  Returns the number of evaluations."""
+    import trees
+    from props import common
+    from wcmatch import glob as Gm
+    n = 0
+    found = 0
+    pats = [t for _, t in patterns_for(rng, npats)] + ['**/**/*', 'sub/**/**/f*', '*/', '*/*/', '**/', 'sub/', '**/**/']
+    for ti in range(ntrees):
+        sp = trees.DESIGNED[ti % len(trees.DESIGNED)] if ti % 2 == 0 else trees.random_spec(rng, size=rng.randint(5, 12), cycles=False)
+        with trees.Tree(sp) as T:
+            if has_dir_cycle(T.root):
+                continue
+            cands = sorted(T.entries())
+            for p in pats:
+                for fv in (Gm.GLOBSTAR, Gm.GLOBSTAR | Gm.DOTGLOB | Gm.MARK, Gm.GLOBSTAR | Gm.EXTGLOB | Gm.GLOBSTARLONG):
+                    try:
+                        want = sorted(Gm.glob(p, flags=fv, root_dir=T.root))
+                        wantm = [c for c in cands if Gm.globmatch(c, p, flags=fv | Gm.REALPATH, root_dir=T.root)]
+                    except Exception:
+                        continue
+                    for v in common.separator_respellings(p, rng, k=2):
+                        n += 1
+                        try:
+                            got = sorted(Gm.glob(v, flags=fv, root_dir=T.root))
+                            gotm = [c for c in cands if Gm.globmatch(c, v, flags=fv | Gm.REALPATH, root_dir=T.root)]
+                        except Exception as e:
+                            got, gotm = 'EXC %s' % type(e).__name__, None
+                        if got != want and found < 3:
+                            found += 1
+                            ctx.counterexample('glob(%r, %s) = %r but %r, the same pattern with every separator written once, gives %r' % (
+                                v, corr.flag_names(fv), got if isinstance(got, str) else got[:6], p, want[:6]),
+                                {'pattern': v, 'same_as': p, 'flags': corr.flag_names(fv), 'tree': sp})
+                        elif gotm is not None and gotm != wantm and found < 3:
+                            found += 1
+                            ctx.counterexample('globmatch(.., %r, %s|REALPATH) accepts %r but for %r, the same pattern with every separator written once, %r' % (
+                                v, corr.flag_names(fv), gotm[:6], p, wantm[:6]),
+                                {'pattern': v, 'same_as': p, 'flags': corr.flag_names(fv), 'tree': sp})
     return n
